@@ -185,6 +185,9 @@ func (g *gen) chanInOut(name string, typs []types.Type) (inTyp, outTyp types.Typ
 	if sig.Variadic() {
 		return nil, nil, fmt.Errorf("%s, the function argument is variadic, which is not supported", name)
 	}
+	if derive.IsSendOnlyChan(chanType) {
+		return nil, nil, fmt.Errorf("%s, the second argument, %s, is a send only channel, which cannot be received from", name, g.TypeString(typs[1]))
+	}
 	elemTyp := chanType.Elem()
 	inTyp = params.At(0).Type()
 	if !types.Identical(inTyp, elemTyp) {
